@@ -5,10 +5,13 @@ From M Require C12Proofs.
 From M Require Tie.
 From M Require C12Latch.
 From M Require CmdLayer.
+From M Require CmdSticky.
 From M Require C12Latch.
+From M Require CmdLayer.
 From M Require CmdModel.
 From M Require RegModel.
 From M Require RegProofs.
+From M Require StbUser.
 Import ListNotations.
 
 Module T_classify. Import C12Proofs. Local Open Scope bool_scope. Local Open Scope Z_scope.
@@ -122,4 +125,24 @@ Theorem C12_cls_clears :
 Proof. exact (@CmdLayer.cls_clears). Qed.
 End T_cls_clears.
 Definition C12_cls_clears := @T_cls_clears.C12_cls_clears.
+
+Module T_event_bits_sticky_cmds. Import CmdSticky. Local Open Scope bool_scope. Local Open Scope Z_scope.
+Import RegModel RegProofs C12Latch CmdModel CmdLayer StbUser. Local Open Scope N_scope.
+Theorem C12_event_bits_sticky_cmds :
+  forall e,
+  is_event e -> forall xs s, Forall (fun x => ~ xclears e x) xs ->
+  keeps16 (rg s e) (rg (fold_left xstep xs s) e).
+Proof. exact (@CmdSticky.event_bits_sticky_cmds). Qed.
+End T_event_bits_sticky_cmds.
+Definition C12_event_bits_sticky_cmds := @T_event_bits_sticky_cmds.C12_event_bits_sticky_cmds.
+
+Module T_sticky_under_commands. Import CmdSticky. Local Open Scope bool_scope. Local Open Scope Z_scope.
+Import RegModel RegProofs C12Latch CmdModel CmdLayer StbUser. Local Open Scope N_scope.
+Theorem C12_sticky_under_commands :
+  let s := fold_left xstep [XA (AOp (OPush (-222)%Z)); XA (ACmd KOpc); XA (ACmd (KEse 255)); XA (ACmd KStbQ); XA (ACmd KOperEvQ); XA (ACmd KPreset);
+                            XA (ACmd KErrNextQ); XStb true 16; XA (ACmd KEseQ)] (init 4) in
+  rg s ESR = 17 /\ Forall (fun x => ~ xclears ESR x) [XA (ACmd KOpc); XA (ACmd KOperEvQ); XA (ACmd KPreset); XStb true 16].
+Proof. exact (@CmdSticky.sticky_under_commands). Qed.
+End T_sticky_under_commands.
+Definition C12_sticky_under_commands := @T_sticky_under_commands.C12_sticky_under_commands.
 
